@@ -46,7 +46,7 @@ Definition program (n : notif) : list act :=
   | NChange v => [AWLock; AResetTransient; AInstall v; AWUnlock]                 (* after the repair *)
   | NChangeOld v => [AWLock; AResetTransient; AWUnlock; AWLock; AInstall v; AWUnlock]
   | NSave => [AClientWritesDisk; AWLock; AResetAll; AWUnlock]
-  | NClose => [AWLock; ASetSavedNone; AWUnlock; AWLock; ASetOpenedNone; AWUnlock]
+  | NClose => [AWLock; AResetAll; AWUnlock]          (* one critical section since /repo 9bf8fa8 (was: saved, then opened, in two) *)
   end.
 
 Definition run_acts (l : list act) (s : dstate) : dstate := fold_left (fun s a => apply_act a s) l s.
